@@ -278,17 +278,28 @@ def gateSpecKind : GateSpecification → Bool
   | .sequence s => s.gates.all fun g => g.qubits.all noPlaceholder
   | _ => true
 
-/-- the definition kinds whose text ends in a newline (which the lexer merges with the program writer's own
-newline): DEFCAL MEASURE and DEFCIRCUIT with a body of one-line kinds, DEFGATE -/
+/-- the bodies of the proved subset: one-line kinds, and — as the LAST instruction only — possibly a definition
+of `defKind` (DEFWAVEFORM, DEFFRAME, DEFCAL with a body of one-line kinds).  (A definition in a body swallows
+every following line of the enclosing body when the text is read back, so the parser never returns one anywhere
+else.) -/
+def bodyOk1 (body : List Instruction) : Bool :=
+  body.dropLast.all lineKind &&
+    (match body.getLast? with
+     | some t => lineKind t || defKind t
+     | none => true)
+
+/-- the definition kinds handled through their line tokens: DEFCAL MEASURE, DEFCIRCUIT and DEFGATE (their text ends
+in a newline, which the lexer merges with the program writer's own newline), and DEFCAL — all bodies `bodyOk1` -/
 def nlKind : Instruction → Bool
-  | .measureCalibrationDefinition _ body => body.all lineKind
-  | .circuitDefinition _ _ _ body => body.all lineKind
+  | .calibrationDefinition _ body => bodyOk1 body
+  | .measureCalibrationDefinition _ body => bodyOk1 body
+  | .circuitDefinition _ _ _ body => bodyOk1 body
   | .gateDefinition g => gateSpecKind g.specification
   | _ => false
 
 /-- instruction kinds whose round trip is proved in `QV.C02.Props` (`C02_roundtrip_partial`): the 34 one-line
 kinds, DEFWAVEFORM, DEFFRAME, DEFGATE (`gateSpecKind`), and DEFCAL / DEFCAL MEASURE / DEFCIRCUIT with a body of
-one-line kinds — all 40 kinds -/
+one-line kinds possibly ending in a definition (`bodyOk1`) — all 40 kinds -/
 def provedKind (i : Instruction) : Bool := blockKind i || nlKind i
 
 end QV.C02
